@@ -62,7 +62,40 @@ NEG = ("NOT enforced by the code; replayed (tiers on negative times): entries of
        "silently → **counter-example** "
        "`C09.append_negative_counterexample` (finding); kept, documented in the docstring")
 
+GRID = ("representation, not a restriction of the input: the exact division `(end - start) / n` stays on the integer grid iff the "
+        "word count divides the entry's length; a finite set of rational boundaries has a common denominator and every "
+        "definition is invariant under rescaling (DESIGN 11.8; the X run takes the grid cases whose quotients lie on k/64, the F "
+        "run and the Fraction oracle cover every case incl. three words in 1/16 s)")
 RULES = [
+    # ---------------------------------------------------------------- code brought inside the model later (DESIGN 11.8)
+    (r"Scripts\.", r"SplitGrid|hdiv", "i", GRID),
+    (r"Scripts\.(split_|spell_spec)", r"getTier (src|target) = \.ok \(\.I", "i",
+     "type-correct argument (the named tier exists and is an interval tier); excluded cases replayed: an absent name raises the "
+     "built-in KeyError of `getTier` (compared as \"raises\"), a point tier with points raises ValueError (tuple unpacking) — "
+     "modelled in `sourceEntries` / `spellEntries` and generated"),
+    (r"Scripts\.split_window_spec$", r"htg", "res",
+     "case distinction: an existing interval tier as target (here) / no tier of that name (`Scripts.split_window_new_spec`); a "
+     "POINT tier as existing target of a windowed call is a type error of the caller (AttributeError inside `Point(...)`, replayed; "
+     "not generated)"),
+    (r"Scripts\.split_window_new_spec$", r"hfresh", "res", "case distinction, the other case is `Scripts.split_window_spec`"),
+    (r"Scripts\.spell_spec$", r"hfresh", "ii", "a name in use is refused by `addTier` (TierNameExistsError): `Scripts.spell_duplicate`, `C12.addTier_dup`"),
+    (r"Scripts\.spell_duplicate$", r"hn", "i", "the rejected case itself (\"a duplicate name is rejected\")"),
+    (r"Scripts\.", r"hwin", "res", "names the window of the call (`startT`/`endT`, a missing one replaced by the textgrid's bound)"),
+    (r"Scripts\.", r"g\.lo = some lo|g\.hi = some hi", "ii",
+     "a textgrid that holds a tier has a span: `addTier` sets both bounds (`C12.addTier_spec`, `C12.addTier_span`)"),
+    (r"Scripts\.", r"hlh : lo ≤ hi", "i", "span of a well-formed textgrid (it covers its well-formed tiers: `C12.covered_run`); replayed with the "
+     "bounds swapped: the IntervalTier constructor puts them in order (A29)"),
+    (r"Scripts\.splitWords_spec$", r"hpos", "i", LISTWF),
+    (r"Scripts\.pySplit_(words|stripped)$", r"hw", "res", RES),
+    (r"Scripts\.pyJoin_comma_stripped$", r"hne|hw", "ii",
+     "helper: delivered by `Scripts.spellOne_some` (an entry is reported only with a rejected word) and `Scripts.pySplit_words`"),
+    (r"Scripts\.splitInstall_ok$", r"hn", "ii", "helper: delivered by `Scripts.splitNewTier_name` (the new tier carries the target's name)"),
+    (r"Scripts\.split_window_rejects$", r"hsrc", "i", "type-correct argument, as above"),
+    (r"PointQuery\.points_sorted_spec$", r"hs", "iii",
+     "KEPT — replayed: neither `PointObject1D/2D.__init__` nor `open1DPointObject` / `open2DPointObject` sort or check the order "
+     "(Praat writes sorted files); on an unsorted list the early `break` hides points: `PointQuery.points_unsorted_counterexample`; "
+     "what is computed for ANY list: `PointQuery.pointsGo_eq`, `PointQuery.points_sound` (no hypothesis). No property mentions the "
+     "function: an observation (DESIGN 11.3b), not a finding"),
     # ---------------------------------------------------------------- results, members, cases
     (r"rejects$", r"≤", "i", "the rejected case itself (the property: \"a region / window / entry with a ≥ b is rejected\")"),
     # ---------------------------------------------------------------- C05
